@@ -33,12 +33,18 @@ def obligations(tier):
            Ob('O5.3-iso-code', 'sx', 'harness.C05:h_iso', slices=[{'kind': 'currency', 'off': o, 'cnt': 120} for o in (range(0, 1048, 120) if tier == 'thorough' else (0, 480, 960))], timeout=t,
               descr='single-unit currency: ISO code of the table for the canonical unit; fake ISO codes not reported', bounds='batches of 120 currency spellings',
               encodes=[P + 'parsers:BaseCurrencyParser.parse']),
-           Ob('O5.4-compound-fp', 'fn', 'harness.C05:fp_compound', slices=[{'w': 8 if tier == 'quick' else 12, 'ratio': 100, 'mode': 'exact'}], timeout=max(t, 300), finding='F4',
-              descr='region F4: is fl(N + fl(M * fl(1/100))) the nearest double of the decimal amount?  (z3 QF_FP)', bounds='N < 2^8 (thorough 2^12), M < 100',
-              encodes=[P + 'parsers:BaseCurrencyParser.__merge_compound_unit'], engine='z3 floating-point (bit-blasted) query on the arithmetic of __merge_compound_unit'),
+           Ob('O5.4-compound-fp', 'fn', 'harness.C05:fp_compound_traced', slices=[{'w': 8 if tier == 'quick' else 12, 'mode': 'exact'}], timeout=max(t, 300), finding='F4',
+              descr='region F4: is the double computed by the real merge code (traced on IEEE-double proxies: fl(N + fl(M * fl(1/100)))) the nearest double of the decimal amount?  (z3 QF_FP)', bounds='US dollar / cent, 1 <= N < 2^8 (thorough 2^12), M < 100',
+              encodes=[P + 'parsers:BaseCurrencyParser.__merge_compound_unit'], engine='z3 floating-point (bit-blasted) query on the term traced from the real __merge_compound_unit'),
+           Ob('O5.4-compound-pairs', 'fn', 'harness.C05:compound_real', slices=[{'b': b, 'nb': 4} for b in range(4)], timeout=max(t, 300),
+              descr='every main/fraction currency pair the real English tables wire together (157): the real merge code, traced over exact reals, yields one entity over the whole '
+                    'span with the main unit and ISO code, worth N + M/ratio (up to the rounding of the constant 1/ratio)', bounds='1 <= N < 10^12, 0 <= M < ratio, all pairs',
+              encodes=[P + 'parsers:BaseCurrencyParser.__merge_compound_unit', P + 'parsers:BaseCurrencyParser.__create_currency_result', P + 'parsers:BaseCurrencyParser.__check_units_string_contains'],
+              stubs=['inner NumberWithUnitParser.parse -> returns the unit name and a traced number', 'culture_info.format -> identity', 'float() in the parsers module -> traced number'],
+              engine='z3 linear real arithmetic on the term traced from the real code'),
            Ob('O5.4-witness', 'fn', 'harness.C05:api_witness_f4', timeout=t, finding='F4', descr='API witness of F4')]
     if tier == 'thorough':
-        obs.append(Ob('O5.4-compound-ulp', 'fn', 'harness.C05:fp_compound', slices=[{'w': 10, 'ratio': 100, 'mode': 'ulp'}], timeout=1200,
+        obs.append(Ob('O5.4-compound-ulp', 'fn', 'harness.C05:fp_compound_traced', slices=[{'w': 10, 'mode': 'ulp'}], timeout=1200,
                       descr='the computed amount is never more than one ulp from the nearest double of the decimal amount', bounds='N < 2^10, M < 100',
                       engine='z3 floating-point (bit-blasted) query'))
     return obs
